@@ -248,4 +248,20 @@ def run(ctx):
         return None
     hw.add('clean - - 1', ('summary-with-huge-line', exph))
     run_suite(ctx, 'clean.huge-line', [hw], known=known, use_model=False)
+    # totals of four digits: 1005 recorded snapshots (how the number is printed must not depend on its digits)
+    tw = World('c20-thousand')
+    tw.add(mode_line(False, ''))
+    tw.add('cfg 1 %s - - none none' % core.hx('snaps'))
+    tw.add('begin 1 %s' % core.hx(b'TestMany'))
+    for k in range(1005):
+        tw.add('snap 1 1 %s' % core.hx(b'v%d' % k))
+    tw.add('end 1')
+
+    def expt(line, raw, ww):
+        t = line.out.decode('utf-8', 'replace')
+        if '1005 snapshots added' not in t:
+            return 'the summary does not show the 1005 added snapshots as "1005 snapshots added": %r' % t[:200]
+        return None
+    tw.add('clean - - 1', ('summary-with-four-digit-total', expt))
+    run_suite(ctx, 'clean.four-digit-total', [tw], known=known, use_model=False)
     findings.report(ctx, 'C20')
